@@ -1,4 +1,5 @@
-"""Per-property configuration of the check driver (tools/check.py)."""
+"""Per-property configuration of the check driver (tools/check.py): one JSON file per property in tools/props.d/."""
+import json, os
 
 COMMON_TRUSTED = [
     "Coq 8.16.1 kernel (coqc; vm_compute is used, native_compute is not)",
@@ -7,60 +8,10 @@ COMMON_TRUSTED = [
     "correspondence harness: go/harness generators and canonical printers, verif-tagged hook file in /repo (add-only wrappers), ocaml/driver.ml, line diff",
 ]
 
-PROPS = {
-    "C10": {
-        "props_file": "Props/C10.v",
-        "rule": "cases: all 256 table entries; all messages of length 0..1 (0..2 in thorough); (top byte, input byte) pairs over random 24-bit low parts (every 17th pair in quick, all 65536 in thorough) plus five edge states x 256 bytes; random messages <= 4 KiB each with its split points. A case is non-trivial when it feeds at least one byte (or reads a table entry); distinct = distinct case text (sha256).",
-        "explanation": "Theorems: the generated table equals 8 reference bit steps per entry; the generated byte step equals the reference for all 2^32 x 2^8 pairs (XOR-homomorphism basis argument); whole messages, chunking and residue by induction. computeCRC32/updateCRC32/tableCRC32/crc32Polynomial are re-translated from crc32.go and crc32_table.go on every run, so the theorems are re-checked against the current source; the hook exports additionally run the compiled Go code against the extracted translation.",
-        "trusted": ["the translation of updateCRC32's range loop into fold_left (checked on every run by the correspondence cases)"],
-        "assumptions": ["uint32 arithmetic of Go is modelled as Z with explicit mod 2^32"],
-        "level_text": "Machine-checked theorems (Coq) that the checksum code, re-translated from crc32.go and crc32_table.go on every run, equals a bitwise CRC-32/MPEG-2 reference for every register state, byte and byte string, that chunked and one-pass computation agree, and that message+checksum has residue 0. Unbounded: all 2^40 single steps via an XOR-homomorphism argument, messages by induction.",
-        "level_note": "Trusted: Coq kernel (vm_compute used for three finite sweeps: 256 table entries, 65536 table XOR pairs, 40+32 basis vectors), the Go-AST-to-Gallina translator (its output is also run against the compiled Go code through verif-tagged exports on ~21k cases per quick run), uint32 modelled as Z mod 2^32. All six theorems are closed under the global context.",
-        "technique": "Coq proof over source-regenerated definitions + differential correspondence",
-    },
-
-    "C11": {
-        "props_file": "Props/C11.v",
-        "rule": "cases: packets with every flag/AFC/scrambling combination on random PIDs and counters (all 8192 PIDs in thorough); well-formed packets from a generator covering AF length 0..183, every subset of PCR/OPCR/splice/private data/extension(LTW, piecewise, seamless splice), parsed from an independent reference encoding, written, and re-emitted; adaptation_field_length 0..183 over random bodies; arbitrary blocks of 0..210 bytes; invalid packets for the writer (oversize, nil behind flags, odd targets); PCR/OPCR/DTS at every single-bit value. Non-trivial = the call succeeded; distinct = distinct case text.",
-        "explanation": "Model/Packet.v and Model/Clock.v mirror parsePacket/writePacket and friends; calcPacketAdaptationField(Extension)Length, payloadOffset and newStuffingAdaptationField are re-translated from packet.go on every run. The implementation-side oracle compares writePacket with an independent ISO 13818-1 encoder, parses that encoding back, and demands byte-identical re-emission of conformant packets.",
-        "trusted": ["hand-written model of packet.go (checked by correspondence on every run)", "astikit BytesIterator/BitsWriter as modelled in Base/Iter.v and Base/Wr.v"],
-        "assumptions": ["bit fields read with masks and shifts in Go are modelled as bit-field extraction at the same positions"],
-        "level_text": "Machine-checked theorems (Coq) about an executable model of packet.go: the header and PCR/PTS layouts are read back from their encodings for all field values, and every packet the writer accepts is exactly the target size. The model is run against the implementation (parsePacket, writePacket, re-emission) on thousands of generated packets per run; length calculators are re-translated from the source.",
-        "level_note": "Partial: the full parse(write p) = p theorem for the adaptation field with all optional parts is not closed yet; it rests on correspondence and on the reference-encoder oracle. Trusted: Coq kernel, translator, hand-written model, extraction (ExtrOcamlBasic), harness.",
-        "technique": "Coq proof over a hand-written executable model + differential correspondence + reference-encoder oracle",
-    },
-    "C12": {
-        "props_file": "Props/C12.v",
-        "rule": "TODO",
-        "explanation": "TODO",
-        "trusted": ["hand-written model of data_pes.go (checked by correspondence on every run)", "astikit BytesIterator/BitsWriter as modelled in Base/Iter.v and Base/Wr.v"],
-        "assumptions": ["bit fields read with masks and shifts in Go are modelled as bit-field extraction at the same positions"],
-        "level_text": "TODO",
-        "level_note": "TODO",
-        "technique": "Coq proof over a hand-written executable model + differential correspondence + reference-encoder oracle",
-    },
-
-    "C13": {
-        "props_file": "Props/C13.v",
-        "rule": "TBD",
-        "explanation": "TBD",
-        "trusted": [],
-        "assumptions": [],
-        "level_text": "TBD",
-        "level_note": "TBD",
-        "technique": "Coq proof over a hand-written executable model + differential correspondence + reference-encoder oracle",
-    },
-
-    "C09": {
-        "props_file": "Props/C09.v",
-        "rule": "TBD",
-        "explanation": "TBD",
-        "trusted": [],
-        "assumptions": [],
-        "level_text": "TBD",
-        "level_note": "TBD",
-        "technique": "Coq proof over a hand-written executable model + differential correspondence + reference-decoder oracle",
-    },
-}
+_D = os.path.join(os.path.dirname(os.path.abspath(__file__)), "props.d")
+PROPS = {}
+for _f in sorted(os.listdir(_D)):
+    if _f.endswith(".json"):
+        PROPS[_f[:-5]] = json.load(open(os.path.join(_D, _f)))
 
 NOT_APPLICABLE = {}
